@@ -960,14 +960,6 @@ theorem runAt_map {β γ : Type} (g : β → γ) : ∀ (L : List (Nat × β)) (i
     · rfl
     · exact runAt_map g rest (i - k)
 
-/-- generic `read_table`: rows of events with payloads, one output vector -/
-def collectG {ε : Type} (pend : ε → Bool) (val : ε → α) (runs : List (Nat × List (ε × Nat))) : List (Nat × List α) :=
-  runs.map fun r => (r.1, readRow pend val r.2 0)
-
-/-- the run list seen through `val` -/
-def runsOf {ε : Type} (val : ε → α) (runs : List (Nat × List (ε × Nat))) : List (RowRun α) :=
-  runs.map fun r => (r.1, r.2.map fun x => (val x.1, x.2))
-
 theorem gridF_collectG {ε : Type} (pend : ε → Bool) (val : ε → α) (hp : ∀ e, pend e = true → val e = default)
     (runs : List (Nat × List (ε × Nat))) (r c : Nat) :
     gridF (collectG pend val runs) r c = expand (runsOf val runs) r c := by
@@ -1042,5 +1034,214 @@ theorem rng_ext (R1 R2 : Rng α) (h1 : Inv R1) (h2 : Inv R2) (hne : R1.inner.len
   simp only [Option.getD_some] at e1 e2
   rw [e1, e2, hw1, hw2]
   exact hv _ _
+
+/-! ### the computable bounding box of a run list (`Spec.bbox`, used by the driver) -/
+
+theorem rowSpan_acc : ∀ (evs : List (α × Nat)) (c a b0 : Nat),
+    rowSpan evs c (some (a, b0)) =
+      match rowSpan evs c none with
+      | none => some (a, b0)
+      | some (_, b) => some (a, b)
+  | [], c, a, b0 => rfl
+  | (v, k) :: rest, c, a, b0 => by
+    simp only [rowSpan]
+    by_cases h : v ≠ default ∧ k > 0
+    · rw [if_pos h, if_pos h, rowSpan_acc rest (c + k) a (c + k - 1), rowSpan_acc rest (c + k) c (c + k - 1)]
+      cases rowSpan rest (c + k) none with
+      | none => rfl
+      | some x => rfl
+    · rw [if_neg h, if_neg h, rowSpan_acc rest (c + k) a b0]
+
+/-- `rowSpan` finds the first and the last column of a row of runs that hold a non-default value -/
+theorem rowSpan_spec : ∀ (evs : List (α × Nat)) (c : Nat),
+    match rowSpan evs c none with
+    | none => ∀ q, cellAt evs q = default
+    | some (a, b) => c ≤ a ∧ a ≤ b ∧ cellAt evs (a - c) ≠ default ∧ cellAt evs (b - c) ≠ default ∧
+        ∀ q, cellAt evs q ≠ default → a ≤ c + q ∧ c + q ≤ b
+  | [], c => by simp [rowSpan, cellAt]
+  | (v, k) :: rest, c => by
+    have ih := rowSpan_spec rest (c + k)
+    simp only [rowSpan]
+    by_cases h : v ≠ default ∧ k > 0
+    · rw [if_pos h, rowSpan_acc]
+      cases hr : rowSpan rest (c + k) none with
+      | none =>
+        rw [hr] at ih
+        simp only at ih ⊢
+        refine ⟨Nat.le_refl _, by omega, ?_, ?_, ?_⟩
+        · simp only [cellAt, Nat.sub_self]; rw [if_pos h.2]; exact h.1
+        · simp only [cellAt]; rw [if_pos (by omega)]; exact h.1
+        · intro q hq
+          simp only [cellAt] at hq
+          by_cases hk : q < k
+          · omega
+          · rw [if_neg hk] at hq; exact absurd (ih _) hq
+      | some ab =>
+        obtain ⟨a', b'⟩ := ab
+        rw [hr] at ih
+        simp only at ih ⊢
+        obtain ⟨i1, i2, i3, i4, i5⟩ := ih
+        refine ⟨Nat.le_refl _, by omega, ?_, ?_, ?_⟩
+        · simp only [cellAt, Nat.sub_self]; rw [if_pos h.2]; exact h.1
+        · simp only [cellAt]; rw [if_neg (by omega)]
+          rw [show b' - c - k = b' - (c + k) by omega]; exact i4
+        · intro q hq
+          simp only [cellAt] at hq
+          by_cases hk : q < k
+          · omega
+          · rw [if_neg hk] at hq; have := i5 _ hq; omega
+    · rw [if_neg h]
+      have hcell : ∀ q, cellAt ((v, k) :: rest) q = if q < k then default else cellAt rest (q - k) := by
+        intro q
+        simp only [cellAt]
+        by_cases hk : q < k
+        · rw [if_pos hk, if_pos hk]
+          apply Classical.byContradiction; intro hv; exact h ⟨hv, by omega⟩
+        · rw [if_neg hk, if_neg hk]
+      cases hr : rowSpan rest (c + k) none with
+      | none =>
+        rw [hr] at ih
+        simp only at ih ⊢
+        intro q; rw [hcell]; split
+        · rfl
+        · exact ih _
+      | some ab =>
+        obtain ⟨a', b'⟩ := ab
+        rw [hr] at ih
+        simp only at ih ⊢
+        obtain ⟨i1, i2, i3, i4, i5⟩ := ih
+        refine ⟨by omega, i2, ?_, ?_, ?_⟩
+        · rw [hcell, if_neg (by omega), show a' - c - k = a' - (c + k) by omega]; exact i3
+        · rw [hcell, if_neg (by omega), show b' - c - k = b' - (c + k) by omega]; exact i4
+        · intro q hq
+          rw [hcell] at hq
+          by_cases hk : q < k
+          · rw [if_pos hk] at hq; exact absurd rfl hq
+          · rw [if_neg hk] at hq; have := i5 _ hq; omega
+
+theorem bboxFrom_acc : ∀ (runs : List (RowRun α)) (r r0 c0 e c1 : Nat),
+    bboxFrom runs r (some (r0, c0, e, c1)) =
+      match bboxFrom runs r none with
+      | none => some (r0, c0, e, c1)
+      | some (_, a, e', b) => some (r0, min c0 a, e', max c1 b)
+  | [], r, r0, c0, e, c1 => rfl
+  | (k, evs) :: rest, r, r0, c0, e, c1 => by
+    simp only [bboxFrom]
+    cases hs : (if k > 0 then rowSpan evs 0 none else none) with
+    | none => simp only; exact bboxFrom_acc rest (r + k) r0 c0 e c1
+    | some ab =>
+      obtain ⟨a, b⟩ := ab
+      simp only
+      rw [bboxFrom_acc rest (r + k) r0 (min c0 a) (r + k - 1) (max c1 b),
+        bboxFrom_acc rest (r + k) r a (r + k - 1) b]
+      cases bboxFrom rest (r + k) none with
+      | none => rfl
+      | some x =>
+        obtain ⟨x1, x2, x3, x4⟩ := x
+        simp only [Nat.min_assoc, Nat.max_assoc]
+
+theorem expand_cons (k : Nat) (evs : List (α × Nat)) (rest : List (RowRun α)) (p q : Nat) :
+    expand ((k, evs) :: rest) p q = if p < k then cellAt evs q else expand rest (p - k) q := by
+  unfold expand
+  simp only [runAt]
+  by_cases h : p < k
+  · rw [if_pos h, if_pos h]
+  · rw [if_neg h, if_neg h]
+
+/-- `bboxFrom` computes the tight bounding box of the expansion (rows counted from `r`) -/
+theorem bboxFrom_spec : ∀ (runs : List (RowRun α)) (r : Nat),
+    match bboxFrom runs r none with
+    | none => ∀ p q, expand runs p q = default
+    | some (r0, c0, r1, c1) => r ≤ r0 ∧ r0 ≤ r1 ∧
+        (∃ q, expand runs (r0 - r) q ≠ default) ∧ (∃ q, expand runs (r1 - r) q ≠ default) ∧
+        (∃ p, expand runs p c0 ≠ default) ∧ (∃ p, expand runs p c1 ≠ default) ∧
+        ∀ p q, expand runs p q ≠ default → r0 ≤ r + p ∧ r + p ≤ r1 ∧ c0 ≤ q ∧ q ≤ c1
+  | [], r => by simp [bboxFrom, expand, runAt]
+  | (k, evs) :: rest, r => by
+    have ih := bboxFrom_spec rest (r + k)
+    simp only [bboxFrom]
+    cases hs : (if k > 0 then rowSpan evs 0 none else none) with
+    | none =>
+      -- the row contributes nothing
+      have hrow : ∀ p q, p < k → cellAt evs q = default := by
+        intro p q hp
+        have hk : k > 0 := by omega
+        rw [if_pos hk] at hs
+        have := rowSpan_spec evs 0
+        rw [hs] at this
+        exact this q
+      simp only
+      cases hb : bboxFrom rest (r + k) none with
+      | none =>
+        rw [hb] at ih
+        simp only at ih ⊢
+        intro p q
+        rw [expand_cons]
+        split
+        · exact hrow p q (by assumption)
+        · exact ih _ _
+      | some x =>
+        obtain ⟨r0, c0, r1, c1⟩ := x
+        rw [hb] at ih
+        simp only at ih ⊢
+        obtain ⟨i1, i2, ⟨qt, ht⟩, ⟨qb, hbq⟩, ⟨pl, hl⟩, ⟨pr, hr⟩, i7⟩ := ih
+        refine ⟨by omega, i2, ⟨qt, ?_⟩, ⟨qb, ?_⟩, ⟨pl + k, ?_⟩, ⟨pr + k, ?_⟩, ?_⟩
+        · rw [expand_cons, if_neg (by omega), show r0 - r - k = r0 - (r + k) by omega]; exact ht
+        · rw [expand_cons, if_neg (by omega), show r1 - r - k = r1 - (r + k) by omega]; exact hbq
+        · rw [expand_cons, if_neg (by omega), Nat.add_sub_cancel]; exact hl
+        · rw [expand_cons, if_neg (by omega), Nat.add_sub_cancel]; exact hr
+        · intro p q hpq
+          rw [expand_cons] at hpq
+          by_cases hp : p < k
+          · rw [if_pos hp] at hpq; exact absurd (hrow p q hp) hpq
+          · rw [if_neg hp] at hpq; have := i7 _ _ hpq; omega
+    | some ab =>
+      obtain ⟨a, b⟩ := ab
+      have hk : k > 0 := by
+        apply Classical.byContradiction; intro hn; rw [if_neg hn] at hs; cases hs
+      rw [if_pos hk] at hs
+      have hsp := rowSpan_spec evs 0
+      rw [hs] at hsp
+      simp only [Nat.zero_le, Nat.sub_zero, Nat.zero_add, true_and] at hsp
+      obtain ⟨s1, s2, s3, s4⟩ := hsp
+      simp only
+      rw [bboxFrom_acc]
+      cases hb : bboxFrom rest (r + k) none with
+      | none =>
+        rw [hb] at ih
+        simp only at ih ⊢
+        refine ⟨Nat.le_refl _, by omega, ⟨a, ?_⟩, ⟨b, ?_⟩, ⟨0, ?_⟩, ⟨0, ?_⟩, ?_⟩
+        · rw [expand_cons, if_pos (by omega)]; exact s2
+        · rw [expand_cons, if_pos (by omega)]; exact s3
+        · rw [expand_cons, if_pos hk]; exact s2
+        · rw [expand_cons, if_pos hk]; exact s3
+        · intro p q hpq
+          rw [expand_cons] at hpq
+          by_cases hp : p < k
+          · rw [if_pos hp] at hpq; have := s4 q hpq; omega
+          · rw [if_neg hp] at hpq; exact absurd (ih _ _) hpq
+      | some x =>
+        obtain ⟨r0, c0, r1, c1⟩ := x
+        rw [hb] at ih
+        simp only at ih ⊢
+        obtain ⟨i1, i2, _, ⟨qb, hbq⟩, ⟨pl, hl⟩, ⟨pr, hr⟩, i7⟩ := ih
+        refine ⟨Nat.le_refl _, by omega, ⟨a, ?_⟩, ⟨qb, ?_⟩, ?_, ?_, ?_⟩
+        · rw [expand_cons, if_pos (by omega)]; exact s2
+        · rw [expand_cons, if_neg (by omega), show r1 - r - k = r1 - (r + k) by omega]; exact hbq
+        · by_cases hmin : a ≤ c0
+          · exact ⟨0, by rw [Nat.min_eq_left hmin, expand_cons, if_pos hk]; exact s2⟩
+          · exact ⟨pl + k, by
+              rw [Nat.min_eq_right (by omega), expand_cons, if_neg (by omega), Nat.add_sub_cancel]; exact hl⟩
+        · by_cases hmax : c1 ≤ b
+          · exact ⟨0, by rw [Nat.max_eq_left hmax, expand_cons, if_pos hk]; exact s3⟩
+          · exact ⟨pr + k, by
+              rw [Nat.max_eq_right (by omega), expand_cons, if_neg (by omega), Nat.add_sub_cancel]; exact hr⟩
+        · intro p q hpq
+          rw [expand_cons] at hpq
+          by_cases hp : p < k
+          · rw [if_pos hp] at hpq; have := s4 q hpq
+            have h1 := Nat.min_le_left a c0; have h2 := Nat.le_max_left b c1; omega
+          · rw [if_neg hp] at hpq; have := i7 _ _ hpq
+            have h1 := Nat.min_le_right a c0; have h2 := Nat.le_max_right b c1; omega
 
 end OdsRange
